@@ -125,6 +125,84 @@ def case_select(T, cfg):
         T.holds(f'selected candidate {int(best)} scores at least as high as {j}', scores[int(best)] >= scores[j], key=key)
 
 
+class _OptTap:
+    """contract stub for scipy.optimize.minimize_scalar inside rsatoolbox.model.fitter (in the symbolic run AND in the
+    float replay): call i returns the harness input W[i] (any point of the bounds) and the objective evaluated there,
+    so what is proved holds for whichever point the real Brent search returns; optimality itself is not modelled"""
+
+    def __init__(self, W):
+        import sys
+        self.mod = sys.modules['rsatoolbox.model.fitter']
+        self.real = self.mod.opt
+        self.W = W
+        self.calls = []
+
+    def __enter__(self):
+        tap, real = self, self.real
+
+        class _Res:
+            def __init__(self, x, fun):
+                self.x, self.fun, self.success = x, fun, True
+
+        class _Opt:
+            def minimize_scalar(self, fun, *a, **k):
+                x = tap.W[len(tap.calls)]
+                f = np.asarray(fun(x))
+                f = f.flat[0] if f.size == 1 else f
+                tap.calls.append((x, f))
+                return _Res(x, f)
+
+            def __getattr__(self, name):
+                return getattr(real, name)
+        self.mod.opt = _Opt()
+        return self
+
+    def __exit__(self, *a):
+        self.mod.opt = self.real
+        return False
+
+
+def case_interpolate(T, cfg):
+    """fit_interpolate: the objective handed to the scalar optimiser for pair i is minus the mean training similarity
+    of the prediction w*b_i + (1-w)*b_{i+1} ALONE (no weight on any other basis RDM), and the returned theta is the
+    adjacent mixture of the pair with the lowest reported loss.  The Brent search itself is a contract stub."""
+    from rsatoolbox.model import ModelInterpolate
+    from rsatoolbox.model.fitter import fit_interpolate
+    Bv, D, basis, data, n, nd = _setup(T, cfg, positive=True)
+    method = cfg['method']
+    nb, nr = cfg['n_basis'], cfg['n_rdm']
+    model = ModelInterpolate('i', basis)
+    kw = {}
+    if cfg.get('pattern_idx') is not None:
+        kw = dict(pattern_idx=np.array(cfg['pattern_idx']), pattern_descriptor='cond')
+    W = T.arr('w', (nb - 1,), lo=0, hi=1)
+    with _OptTap(W) as tap:
+        theta = fit_interpolate(model, data, method=method, **kw)
+    key = f'C08:interpolate:{method}'
+    T.concrete('one optimiser call per adjacent pair', len(tap.calls) == nb - 1, str(len(tap.calls)), key=key)
+    T.concrete('theta has one weight per basis RDM', np.shape(theta) == (nb,), str(np.shape(theta)), key=key)
+    sel = _selected_pairs(n, cfg['pattern_idx']) if cfg.get('pattern_idx') is not None else list(range(nd))
+    keep = [k for k in sel if k is not None]
+    losses = []
+    for i, (w, f) in enumerate(tap.calls):
+        w = w if not isinstance(w, np.ndarray) else w.flat[0]
+        pred = [w * Bv[i, k] + (1 - w) * Bv[i + 1, k] for k in keep]
+        T.assume(dot(pred, pred) > 0)
+        want = -total(ref_measure(method, pred, [D[r, k] for k in keep]) for r in range(nr)) / nr
+        f = f if not isinstance(f, np.ndarray) else f.flat[0]
+        T.eq(f'objective of pair {i} is the loss of the pair mixture alone', f, want, key=key + ':objective')
+        losses.append((f, w))
+    # argmin over the reported losses (first minimum), decided by forking comparisons
+    best = 0
+    for i in range(1, len(losses)):
+        if bool(losses[i][0] < losses[best][0]):
+            best = i
+    want_theta = [0] * nb
+    want_theta[best] = losses[best][1]
+    want_theta[best + 1] = 1 - losses[best][1]
+    T.eq('theta = adjacent mixture of the best pair', list(theta), want_theta, key=key + ':theta')
+
+
 def case_nn(T, cfg):
     """fit_regress_nn: Karush-Kuhn-Tucker conditions of the non-negative least squares problem on every path"""
     from rsatoolbox.model import ModelWeighted
@@ -190,7 +268,7 @@ def case_predict(T, cfg):
     T.eq('model rebuilt from its dictionary predicts identically', pv2, want, key=key)
 
 
-CASES = dict(regress=case_regress, select=case_select, nn=case_nn, predict=case_predict)
+CASES = dict(regress=case_regress, select=case_select, nn=case_nn, predict=case_predict, interpolate=case_interpolate)
 MAX_PATHS = dict(quick=600, thorough=5000)
 ASSUME_SQRT_ARGS_POSITIVE = True
 SKIP_UNKNOWN_BRANCHES = True
@@ -216,6 +294,12 @@ def configs(tier):
         out.append(dict(case='select', method=method, n_cond=3, n_basis=3, n_rdm=1))
         if not quick:
             out.append(dict(case='select', method=method, n_cond=4, n_basis=2, n_rdm=1))
+    out.append(dict(case='interpolate', method='cosine', n_cond=3, n_basis=3, n_rdm=1))
+    out.append(dict(case='interpolate', method='cosine', n_cond=3, n_basis=2, n_rdm=2))
+    if not quick:
+        out.append(dict(case='interpolate', method='cosine', n_cond=4, n_basis=3, n_rdm=1, pattern_idx=[0, 1, 3]))
+        out.append(dict(case='interpolate', method='cosine', n_cond=3, n_basis=4, n_rdm=1))
+        out.append(dict(case='interpolate', method='corr', n_cond=3, n_basis=3, n_rdm=1))
     for cls in ['ModelFixed', 'ModelSelect', 'ModelWeighted', 'ModelInterpolate']:
         for from_obj in [True, False]:
             out.append(dict(case='predict', cls=cls, n_cond=3, n_basis=2, n_rdm=1, from_obj=from_obj))
